@@ -113,8 +113,13 @@ func gen(rng *rand.Rand, tier core.Tier, emit core.Emit) {
 			}
 			// place the whole refresh after the pass's k-th repository call (filter, remove, remove, …)
 			var ev []string
-			for i := 0; i < rng.Intn(ns+2); i++ {
-				ev = append(ev, "c0")
+			if rng.Intn(3) == 0 {
+				// storage-command placement inside the scan: after the index read, before the record fetch
+				ev = append(ev, "s0")
+			} else {
+				for i := 0; i < rng.Intn(ns+2); i++ {
+					ev = append(ev, "c0")
+				}
 			}
 			if rng.Intn(3) == 0 {
 				ev = append(ev, fmt.Sprintf("t%d", 256*(1+rng.Intn(4))))
